@@ -70,6 +70,44 @@ CLAIMED = {
              "raw node and exception fields, and read counts, against the model and an independent contents-only oracle.",
         technique="Lean 4 proof (structural induction on the tree model, reduction to one-step traversal) + correspondence check",
         design_ref="6/C08"),
+    "C10": dict(
+        text="Theorems (all histories, all query byte strings, no bound), on the functions transcribed from NodeIterator: "
+             "_get_key_after returns the image of the smallest stored key strictly greater than k, None iff there is none "
+             "(next_is_successor, via keyAfter_spec), _get_next_key the smallest stored key (next_none_is_min); items() yields "
+             "exactly the stored pairs (items_exact), all of them byte-string keys, in strictly ascending byte order hence each once "
+             "(items_sorted with plt_nibs: byte order = nibble order); nodes() = pre-order: every pair is the node traverse(prefix) "
+             "returns (nodes_are_traverse), prefixes strictly increase (nodes_preorder: each once, parents first, left to right), "
+             "every non-blank node is yielded (nodes_complete). That the fog+cache loop of nodes() produces this pre-order is tied by "
+             "the correspondence (exact node sequence), its proof is listed as future work. Tie: keys/items/values/nodes "
+             "sequences and next(k) for stored, neighbouring and foreign keys.",
+        technique="Lean 4 proof (order theory on nibble paths, induction on the tree model) + correspondence check",
+        design_ref="6/C10"),
+    "C04": dict(
+        text="Theorems about the world executor (all hashings, all stores, every fault position): every write of _set/_delete is "
+             "db[hash(node)] = enc(node) (set/delete_writes_addressed); set/delete on a non-pruning trie over a plain dict - "
+             "successful, failing on a missing node, or aborted by a failing write at ANY position - preserves every old binding "
+             "or exhibits an overwrite with a different body under the same hash (a collision), adds only its own writes and deletes "
+             "nothing (set_delete_append_only); the squash_changes commit of a non-pruning trie likewise for every prefix of the "
+             "commit loop (batch_commit_append_only); a failed operation leaves all root pointers (failed_op_keeps_roots); preserved "
+             "bindings keep a historical root fully readable through the Layer-D reader (old_root_still_readable, with C03's "
+             "getD_of_path). Not yet proved: that each successful operation establishes Resolves for the new root's path nodes "
+             "(completeness invariant) - tied by the correspondence (exact db after every step, every old root re-read through a "
+             "fresh trie and at_root, reads via the Lean Layer-D reader on the model's own db).",
+        technique="Lean 4 proof (invariants of the world executor, any fault position) + correspondence check with fault injection",
+        design_ref="6/C04"),
+    "C11": dict(
+        text="Theorems (all call sequences, all query keys, no bound) on the functions transcribed from HexaryTrieFog: after any "
+             "sequence of explore/mark_all_complete calls on a fresh fog the prefixes are strictly sorted and prefix-free "
+             "(wf_runCalls); explore leaves exactly (S minus old) plus old++segments (explore_spec), is accepted iff the prefix is "
+             "unexplored and segments are distinct and prefix-free - covering the duplicate check and the mixed-length guard - and "
+             "only ever raises ValidationError (explore_ok_iff, explore_err); independent explorations commute and the other order "
+             "succeeds too (explore_comm, explore_comm_ok); mark_all_complete = fold of explore(p, ()) (markAllComplete_eq_fold); "
+             "is_complete iff empty; nearest_right / nearest_unknown: member, the containing prefix if any, else closest to the right / "
+             "adjacent, PerfectVisibility iff empty, FullDirectionalVisibility iff nothing to the right (nearestRight_spec, "
+             "nearestUnknown_spec, incl. the _prefix_distance comparison); serialize/deserialize round trip. Receiver immutability "
+             "holds by construction of the functional model and is tied to the code (receiver compared before/after each call).",
+        technique="Lean 4 proof (sorted prefix-free lists, order theory of Python tuple comparison) + correspondence check",
+        design_ref="6/C11"),
 }
 REASON_PENDING = "check not built yet in this revision (work in progress, see DESIGN.md section 10)"
 
